@@ -137,6 +137,8 @@ mod probe;
 mod runtime;
 #[cfg(test)]
 mod testing;
+#[cfg(foca_verif)]
+mod verif;
 
 use crate::{
     broadcast::Broadcasts,
@@ -154,6 +156,9 @@ pub use crate::{
     payload::{Header, Message, ProbeNumber},
     runtime::{AccumulatingRuntime, Notification, OwnedNotification, Runtime, Timer, TimerToken},
 };
+
+#[cfg(foca_verif)]
+pub use crate::verif::VerifSnapshot;
 
 #[cfg(feature = "postcard-codec")]
 pub use crate::codec::postcard_impl::PostcardCodec;
